@@ -473,8 +473,8 @@ static std::string inf_expected(const std::string &op, const Basic &a, const Bas
             return "";
         int s = real_sign(x);
         if (s == 2) {
-            // complex factor: zoo stays zoo, a directed infinity has no representable
-            // product; the only requirement is that the operation does not throw
+            // complex factor: zoo stays zoo; a directed infinity has no representable product
+            // (outside the property's statement: no expectation)
             QI q;
             bool zero = false;
             if (to_qi(x, q))
@@ -483,7 +483,7 @@ static std::string inf_expected(const std::string &op, const Basic &a, const Bas
                 zero = down_cast<const ComplexDouble &>(x).i == 0.0;
             if (zero)
                 return "NAN";
-            return inf_dir(i) == 0 ? inf(0) : "NOTHROW";
+            return inf_dir(i) == 0 ? inf(0) : "";
         }
         if (s == 0)
             return "NAN";
@@ -495,7 +495,7 @@ static std::string inf_expected(const std::string &op, const Basic &a, const Bas
         if (ka == KINF && finite_number(b)) {
             int s = real_sign(b);
             if (s == 2)
-                return inf_dir(a) == 0 ? inf(0) : "NOTHROW";
+                return inf_dir(a) == 0 ? inf(0) : "";
             if (s == 0)
                 return inf(0);
             return inf(inf_dir(a) * s);
@@ -559,10 +559,7 @@ static std::string run_case(const std::string &line)
         tags.insert("nan-absorbs");
     if (arith && (ka == KINF || kb == KINF)) {
         std::string e = inf_expected(op, *a, *b);
-        if (e == "NOTHROW") {
-            if (threw)
-                tags.insert("inf-rules");
-        } else if (!e.empty() && e != r.text)
+        if (!e.empty() && e != r.text)
             tags.insert("inf-rules");
     }
     if (arith && (finite_double_kind(*a) || finite_double_kind(*b)) && finite_number(*a) && finite_number(*b)
@@ -570,17 +567,12 @@ static std::string run_case(const std::string &line)
         tags.insert("float-exact");
 
     // ---------------- C05
-    if (is_exact_kind(ka) && is_exact_kind(kb)
-        && (arith || op == "rsub" || op == "rdiv" || op == "neg")) {
+    if (is_exact_kind(ka) && is_exact_kind(kb) && (arith || op == "neg")) {
         QI x, y, e;
         to_qi(*a, x);
         to_qi(*b, y);
         bool have = true, expect_zoo = false, expect_nan = false;
-        std::string o2 = op;
-        if (op == "rsub" || op == "rdiv") {
-            std::swap(x, y);
-            o2 = (op == "rsub") ? "sub" : "div";
-        }
+        const std::string &o2 = op;
         if (o2 == "add" || o2 == "badd") {
             e.re = x.re + y.re;
             e.im = x.im + y.im;
@@ -661,7 +653,8 @@ static std::string run_case(const std::string &line)
     if (op == "lt" || op == "le" || op == "gt" || op == "ge" || op == "eq" || op == "ne") {
         int c1, c2;
         Q q1, q2;
-        if (ext_real(*a, c1, q1) && ext_real(*b, c2, q2)) {
+        bool both_real = ext_real(*a, c1, q1) && ext_real(*b, c2, q2);
+        if (op != "eq" && op != "ne" && both_real) {
             int c = ext_cmp(c1, q1, c2, q2);
             bool expect = op == "lt"   ? c < 0
                           : op == "le" ? c <= 0
@@ -686,7 +679,8 @@ static std::string run_case(const std::string &line)
             other = apply("eq", b, a).text;
         else
             other = neg(apply("eq", a, b).text);
-        if (other != r.text)
+        // the dualities are stated for real numbers; Eq/Ne for all numbers
+        if (other != r.text && (both_real || op == "eq" || op == "ne"))
             tags.insert("dual");
     }
 
